@@ -436,7 +436,7 @@ def main(argv):
         r = run_server(cfg, st)
         r['cfg'], r['strategy'] = cfg, kind
         out.append(r)
-    json.dump(out, open(outp, 'w'))
+    json.dump(out, open(outp, 'w'), default=lambda o: f'<{type(o).__name__}: {o!r:.60}>')
 
 
 if __name__ == '__main__':
